@@ -1545,6 +1545,36 @@ pub mod verif_hooks {
 
     pub(super) fn work_reset() {
         WORK.with(|w| w.set((0, w.get().1)));
+        LOOKUPS.with(|w| w.set((0, w.get().1)));
+    }
+
+    thread_local! {
+        /// (symbol lookup steps in the current pass, budget per pass; 0 = unlimited)
+        static LOOKUPS: ::std::cell::Cell<(u64, u64)> = const { ::std::cell::Cell::new((0, 0)) };
+        static MAX_LOOKUPS: ::std::cell::Cell<u64> = const { ::std::cell::Cell::new(0) };
+    }
+
+    /// A second logical clock inside a pass: steps of symbol lookups (one per scope a lookup visits)
+    pub fn set_lookup_budget(budget: u64) {
+        LOOKUPS.with(|w| w.set((0, budget)));
+    }
+
+    /// the most lookup steps counted in one pass since the last call
+    pub fn take_max_lookups() -> u64 {
+        let cur = LOOKUPS.with(|w| w.get().0);
+        MAX_LOOKUPS.with(|m| m.replace(0)).max(cur)
+    }
+
+    pub(crate) fn lookup_tick() {
+        LOOKUPS.with(|w| {
+            let (n, budget) = w.get();
+            w.set((n + 1, budget));
+            MAX_LOOKUPS.with(|m| m.set(m.get().max(n + 1)));
+            if budget != 0 && n + 1 > budget {
+                w.set((0, budget));
+                panic!("VERIF-LOOKUP-BUDGET: more than {} symbol lookup steps in one pass", budget);
+            }
+        });
     }
 
     pub(super) fn work_tick() {
